@@ -37,6 +37,22 @@ func secrets(r *rand.Rand, n int) [][]byte {
 	small := make([]byte, 64)
 	small[0], small[32] = 9, 3
 	out = append(out, one, top, small)
+	// the comparand of the equality operations (cmpKey) and near copies of it: equal, differing in one byte at
+	// either end of either half, one half equal and the other random
+	for _, at := range []int{-1, 0, 31, 32, 63} {
+		b := cmpKey()
+		if at >= 0 {
+			b[at] ^= 0x04
+		}
+		out = append(out, b)
+	}
+	for half := 0; half < 2; half++ {
+		b := cmpKey()
+		x := make([]byte, 32)
+		r.Read(x)
+		copy(b[32*half:], x)
+		out = append(out, b)
+	}
 	for len(out) < n {
 		b := make([]byte, 64)
 		r.Read(b)
@@ -55,6 +71,25 @@ func secrets(r *rand.Rand, n int) [][]byte {
 		out = append(out, b)
 	}
 	return out
+}
+
+// cmpKey is the fixed value secrets are compared with by the equality operations (a canonical scalar in each half)
+func cmpKey() []byte {
+	b := make([]byte, 64)
+	for i := range b {
+		b[i] = byte(7*i + 3)
+	}
+	b[31] &= 0x0f
+	b[63] &= 0x0f
+	return b
+}
+
+// canon clears the top nibble of each half (public shaping: both halves decode as canonical scalars)
+func canon(s []byte) []byte {
+	b := append([]byte(nil), s[:64]...)
+	b[31] &= 0x0f
+	b[63] &= 0x0f
+	return b
 }
 
 func sc(b []byte) *scalar.Scalar {
@@ -222,6 +257,54 @@ func TestVerifCT(t *testing.T) {
 			msk, _ := sr25519.NewMiniSecretKeyFromBytes(s[:32])
 			b, _ := msk.ExpandUniform().MarshalBinary()
 			sink ^= b[0]
+		}},
+		// ---- equality of secrets (documented constant time): the secrets include the comparand and near copies
+		{"sr25519.SecretKey.Equal", false, func(s []byte) {
+			a, _ := sr25519.NewSecretKeyFromBytes(canon(s))
+			b, _ := sr25519.NewSecretKeyFromBytes(cmpKey())
+			verifobs.Start()
+			if a.Equal(b) {
+				sink ^= 1
+			}
+		}},
+		{"sr25519.MiniSecretKey.Equal", false, func(s []byte) {
+			a, _ := sr25519.NewMiniSecretKeyFromBytes(s[:32])
+			b, _ := sr25519.NewMiniSecretKeyFromBytes(cmpKey()[:32])
+			verifobs.Start()
+			if a.Equal(b) {
+				sink ^= 1
+			}
+		}},
+		{"ed25519.PrivateKey.Equal", false, func(s []byte) {
+			a, b := ed25519.PrivateKey(append([]byte(nil), s[:64]...)), ed25519.PrivateKey(cmpKey())
+			verifobs.Start()
+			if a.Equal(b) {
+				sink ^= 1
+			}
+		}},
+		{"scalar.Equal", false, func(s []byte) {
+			a, b := sc(canon(s)), sc(cmpKey())
+			verifobs.Start()
+			sink ^= byte(a.Equal(b))
+		}},
+		{"curve.*.Equal", false, func(s []byte) {
+			var a, b curve.EdwardsPoint
+			a.MulBasepoint(curve.ED25519_BASEPOINT_TABLE, sc(canon(s)))
+			b.MulBasepoint(curve.ED25519_BASEPOINT_TABLE, sc(cmpKey()))
+			var ca, cb curve.CompressedEdwardsY
+			ca.SetEdwardsPoint(&a)
+			cb.SetEdwardsPoint(&b)
+			var ma, mb curve.MontgomeryPoint
+			ma.SetEdwards(&a)
+			mb.SetEdwards(&b)
+			var ra, rb curve.RistrettoPoint
+			ra.MulBasepoint(curve.RISTRETTO_BASEPOINT_TABLE, sc(canon(s)))
+			rb.MulBasepoint(curve.RISTRETTO_BASEPOINT_TABLE, sc(cmpKey()))
+			var cra, crb curve.CompressedRistretto
+			cra.SetRistrettoPoint(&ra)
+			crb.SetRistrettoPoint(&rb)
+			verifobs.Start()
+			sink ^= byte(a.Equal(&b) + ca.Equal(&cb) + ma.Equal(&mb) + ra.Equal(&rb) + cra.Equal(&crb))
 		}},
 		{"ecvrf.Prove", false, func(s []byte) { sink ^= ecvrf.Prove(ed25519.NewKeyFromSeed(s[:32]), msg)[0] }},
 		// ---- sensitivity controls: variable-time routines, whose observation MUST depend on the input
